@@ -16,8 +16,8 @@ CLAIMS = {
          "Seeded search over credential strings, node scopes and instants; arity/scope refusals and the arguments the key store receives are checked per delivery.",
          "Region/service/access keys in asserted deliveries are ASCII without '/', ',', ';', '=' and spaces.", "DESIGN.md §4 C03"),
  "C04": ("deterministic simulation: simulated ns clock (skew, delay, replay after delay), boundary-biased, integer-ns window model",
-         "Seeded search over (request instant, server instant) pairs at ns resolution biased to both bounds ±1 ns, plus a fixed sweep of whole-second offsets in the thorough tier.",
-         "chrono's DateTime construction is trusted for turning simulated instants into the server_timestamp argument.", "DESIGN.md §4 C04"),
+         "Seeded search over (request instant, server instant) pairs at ns resolution biased to both bounds ±1 ns, plus a fixed sweep of whole-second offsets in the thorough tier. A refused in-window request is re-run with the clock at its instant (clock twin) and re-stamped in basic UTC form, signed anew (text twin); one authenticator is asked under several clocks (and as a clone); key stores that are slow, unready or down must not change what a stale request is told.",
+         "chrono's DateTime construction is trusted for turning simulated instants into the server_timestamp argument.", "DESIGN.md §4 C04, §10.5, §10.7"),
  "C05": ("deterministic simulation: header-injection / under-signing faults against per-node requirement sets (both implementations)",
          "Seeded search over requirement sets (letter case, Slice/Vec implementations with add/remove histories) × header multisets × signed lists.",
          "Requirement semantics are taken literally (list membership, prefix match on lower-cased names).", "DESIGN.md §4 C05"),
@@ -25,17 +25,17 @@ CLAIMS = {
          "Seeded search over header multisets and edits; whether an edit is adversarial is computed from the reference signing input; canonical request bytes are compared with the reference through the diagnostic seam.",
          "Only 0x20 is treated as a space; header bytes are opaque.", "DESIGN.md §4 C11"),
  "C12": ("deterministic simulation: folding option per node × where parameters travel × content-type spelling × body tampering × delivery to a node with the other option",
-         "Seeded search in the form world; accept/refuse and canonical query/payload-hash agreement with the reference merge model.",
-         "Media-type case variants and known non-UTF-8 charsets are generated but unasserted (outside the statement).", "DESIGN.md §4 C12"),
+         "Seeded search in the form world; accept/refuse and canonical query/payload-hash agreement with the reference merge model; a body is refused for its encoding exactly when it is folded and undecodable; the fold step is also judged in isolation (URL query canonicalised like the reference, merged query not).",
+         "Media-type case variants and known non-UTF-8 charsets are generated but unasserted (outside the statement).", "DESIGN.md §4 C12, §10.7"),
  "C13": ("deterministic simulation: 1-4 simultaneous defects from different rules and seams (network, clock, scope, provider, signature) on one delivery, judged against its earliest-defect twin; status table over every error",
          "Seeded search over defect subsets on both carriers: the request carrying only the earliest-ranked defect must be reported exactly like the request with the later-ranked defects added (kind, status, message class); the reference model certifies which defect is earliest and that the defects do not interact. Every error observed is checked against the kind→code/status table. Thorough appends every single defect and every pair of different rank on six base requests.",
          "Rules are recognised by error kind plus message class (prefix); an unrecognised message is counted, not asserted. Body-encoding refusals are outside the documented order and never combined. Whether a single defect is caught at all is the owning property's check.", "DESIGN.md §4 C13, §10.2"),
  "C14": ("deterministic simulation: scripted provider (pending/ready/error/rotation, fails when called unready), body transport faults, seeded executor interleaving 1-6 tasks, spurious polls, cancellation; call-protocol monitor over the recorded history plus an immediate-provider control twin",
-         "Seeded search over provider behaviours × schedules × request defects; per-validation history is checked (≤1 call, only after Ready, none when the library's own refusal belongs to an earlier rule, what the provider answered is what the caller gets, bounded liveness, no lost wake-up) and every outcome is compared with the same request validated alone with an immediate provider. Thorough appends every error kind at readiness/answer with 0 and 2 pending polls, and 1.2 s of real provider latency half a second from the window edge.",
-         "The executor is single-threaded; OS-thread interleavings are C18's matter. Real-clock reads inside the library are only visible to the thorough tier's real-latency sweep.", "DESIGN.md §4 C14, §10.2"),
+         "Seeded search over provider behaviours × schedules × request defects; per-validation history is checked (≤1 call, only after Ready, none when the library's own refusal belongs to an earlier rule nor when the reference's first failing rule precedes key lookup and the message as issued is accepted, what the provider answered is what the caller gets, bounded liveness, no lost wake-up) and every outcome is compared with the same request validated alone with an immediate provider. Thorough appends every error kind at readiness/answer with 0 and 2 pending polls, and 1.2 s of real provider latency half a second from the window edge.",
+         "The executor is single-threaded; OS-thread interleavings are C18's matter. Real-clock reads inside the library are only visible to the thorough tier's real-latency sweep.", "DESIGN.md §4 C14, §10.2, §10.5, §10.6"),
  "C15": ("deterministic simulation: every accepted delivery compared part by part with what was submitted and with the key store's answer",
-         "Seeded search inheriting the general and form worlds; method, version, header multiset and per-name order, body, URI (or merged query when folded), principal and session data are compared.",
-         "When folding rebuilt the URI only the query multiset and path equivalence are asserted (authority of absolute-form targets is not preserved; recorded as an observation).", "DESIGN.md §4 C15"),
+         "Seeded search inheriting the general and form worlds; method, version, header multiset and per-name order, body, URI (or merged query when folded), principal and session data are compared; every accepted delivery is validated again through `service_for_signing_key_fn` and the library's own body conversions and must give the same identity, body and target; the key store keeps one response builder for its lifetime.",
+         "When folding rebuilt the URI only the query multiset and path equivalence are asserted (authority of absolute-form targets is not preserved; recorded as an observation).", "DESIGN.md §4 C15, §10.7"),
  "C06": ("deterministic simulation (weakest fit): key-store node deriving through every cache level and shortcut over simulated dates vs the client's independent HMAC chain; seeded generation of secrets/capacities",
          "Seeded search over secrets (every length around every capacity), dates (years 1-9999, leap days) and scope strings; two parties must agree bit for bit. The statement is a pure function of its inputs: the simulator contributes only the second party and the calendar, the rest is seeded generation (stated in DESIGN §4 C06).",
          "Only the default capacity exposes key bytes (AsRef); other capacities are observed through Result and equality only.", "DESIGN.md §4 C06"),
@@ -52,14 +52,14 @@ CLAIMS = {
          "Seeded search over date texts on both carriers; three-class reference verdict (must accept / must reject / unspecified); thorough appends the fixed field/separator/offset/fraction sweep. Partly generation only (DESIGN §4 C16).",
          "Mixed separators, offsets 15:00-23:59, lower-case t/z and year 0000 are unspecified: only 'if accepted, the instant is the reference instant' is asserted.", "DESIGN.md §4 C16"),
  "C17": ("deterministic simulation: history check over everything a run emitted (capturing log seam, errors, Debug/Display) with a secret-material scanner",
-         "Seeded search over tampered/defective/provider-failing/accepted deliveries; every emitted text is scanned for each secret, derived key and withheld correct signature in raw, hex, base64 and decimal-list form.",
-         "Secrets shorter than 8 bytes are not searched for; provider error texts come from the harness.", "DESIGN.md §4 C17"),
+         "Seeded search over tampered/defective/provider-failing/accepted deliveries; every emitted text is scanned for each secret, derived key and withheld correct signature in raw, hex, base64 and decimal-list form; a kept authenticator is validated with and rendered afterwards; over-long stored secrets count as secrets; the correct signature *as presented* by a request that is refused all the same may be echoed by errors and Debug but not by a log record at debug level or above.",
+         "Secrets shorter than 8 bytes are not searched for; provider error texts come from the harness.", "DESIGN.md §4 C17, §10.5–§10.7"),
  "C18": ("deterministic simulation: baton-scheduled real threads at log/provider seams, all validations in flight on one executor thread, harness-owned hash seeds, fresh processes with contended first use, real-parallel hammer, Miri's seeded scheduler (thorough); outcome equality against a single-thread golden",
-         "Seeded search over schedules × hash seeds × processes for a per-run corpus; the baton schedule is recorded and replays exactly; a violation that depends on earlier runs of the same process is replayed with that history in a fresh process; message text is not part of the outcome.",
-         "Preemption only at seams in the native engine; the real-parallel phases are scheduled by the OS (their assertion holds for every schedule; a failure is re-found by re-running up to 40 times, not replayed step by step); Miri tier runs only when the nightly toolchain is present and is skipped otherwise.", "DESIGN.md §4 C18, §10.2"),
+         "Seeded search over schedules × hash seeds × processes for a per-run corpus; the baton schedule is recorded and replays exactly; a violation that depends on earlier runs of the same process is replayed with that history in a fresh process; message text is not part of the outcome. One thread-engine run in three shares a key-store connection pool among the threads (back-pressure through poll_ready); each run abandons 4-32 validations mid-await and re-evaluates the corpus; the corpus is also evaluated with the process-wide log level lowered.",
+         "Preemption only at seams in the native engine; the real-parallel phases are scheduled by the OS (their assertion holds for every schedule; a failure is re-found by re-running up to 40 times, not replayed step by step); Miri tier runs only when the nightly toolchain is present and is skipped otherwise.", "DESIGN.md §4 C18, §10.2, §10.5–§10.7"),
  "C19": ("deterministic simulation: duplication faults on authentication inputs in every order, exactly one selection valid; reference selection rules",
-         "Seeded search over duplicated inputs × positions on both carriers; the documented selection table and the reference verdict from bytes must agree before the library is judged; the key store records which identity was selected.",
-         "The signer signs the request with the duplicate in place where the duplicate is part of the canonical form.", "DESIGN.md §4 C19"),
+         "Seeded search over duplicated inputs × positions on both carriers; the documented selection table and the reference verdict from bytes must agree before the library is judged; the key store records which identity was selected. Duplicates may be empty or look-alikes (NBSP/NEL byte, other letter case: unknown parameters), the parameter list may contain empty elements, and the duplicated input may sit among 21-60 other parameters and header lines.",
+         "The signer signs the request with the duplicate in place where the duplicate is part of the canonical form.", "DESIGN.md §4 C19, §10.5–§10.7"),
 }
 
 
